@@ -499,6 +499,7 @@ def check(chk):
 
     _total_validators(chk, repo, cv)
     _list_helpers(chk, repo)
+    _pass_through_and_patterns(chk, repo, cv)
     _time_string_parsers(chk, repo)
 
     # ---------------------------------------------------------- SIB-6
@@ -600,6 +601,66 @@ def _total_validators(chk, repo, cv):
             w = cfg.path_avoiding(cfg.entry.id, [b_.id], guards, ignore_exc=True)
             chk.ob("SIB-6", "%s asserts the type of the raw value before building the template (like its siblings)" % name, bool(guards) and w is None,
                    f.where(b_.ast), path=cfg.fmt_path(w, CV) if w else None, construct=f.ident, text="template built from unchecked value in " + name)
+
+
+def _pass_through_and_patterns(chk, repo, cv):
+    """PASS-12: a validator hands the given value back unconverted (`return item`) only for a value it has *typed*: under an
+    isinstance(item, T) test or a predicate call on the item (Util.is_power2(item)).  A comparison (`item in (True, False)`,
+    `item == 0`) is not a type test: 1 == True, 0.0 == False.
+    REGEX-12: text recognisers used by validators test the whole string (fullmatch, or a pattern anchored at its end): `match` accepts
+    any text that merely starts well (a colour `ffffff-f2s`)."""
+    n = 0
+    for name, m in sorted(cv.methods.items()):
+        if not name.startswith("_validate_type_"):
+            continue
+        cfg = None
+        for r in walk_local(m.node):
+            if not (isinstance(r, ast.Return) and r.value is not None and src(r.value) == "item"):
+                continue
+            cfg = cfg or m.cfg()
+            node = [q for q in cfg.nodes if q.kind == "stmt" and q.ast is r]
+            if not node:
+                continue
+            n += 1
+            chk.analysed(m)
+            typed = False
+            for k, v in cfg.guards_at(node[0].id).items():
+                if v is not True:
+                    continue
+                try:
+                    e = ast.parse(k, mode="eval").body
+                except SyntaxError:
+                    continue
+                if isinstance(e, ast.Call) and any(isinstance(a, ast.Name) and a.id == "item" for a in e.args):
+                    typed = True
+            chk.ob("PASS-12", "%s returns the given value unconverted only when a type test / predicate on it held" % name, typed, m.where(r),
+                   detail="guards %s" % sorted(cfg.guards_at(node[0].id).items())[:4], construct=m.ident, text="untyped pass-through in " + name)
+    chk.ob("PASS-12", "pass-through returns examined (%d)" % n, n >= 4, cv.methods["_validate_type_bool"].where(), nontrivial=False)
+    n_p = 0
+    for rel in ("mpf/core/utility_functions.py", "mpf/core/config_validator.py", "mpf/core/rgb_color.py"):
+        mod = repo.mod(rel)
+        pats = {}
+        for x in ast.walk(mod.tree):
+            if isinstance(x, ast.Assign) and isinstance(x.value, ast.Call) and call_attr(x.value) == "compile" and x.value.args and isinstance(x.value.args[0], ast.Constant):
+                for t in x.targets:
+                    pats[src(t).split(".")[-1]] = x.value.args[0].value
+        for fn in mod.all_funcs():
+            for c in fn.calls():
+                if call_attr(c) not in ("match", "search", "fullmatch") or not isinstance(c.func, ast.Attribute):
+                    continue
+                recv = src(c.func.value).split(".")[-1]
+                if recv == "re":
+                    pat = c.args[0].value if c.args and isinstance(c.args[0], ast.Constant) else None
+                elif recv in pats:
+                    pat = pats[recv]
+                else:
+                    continue
+                n_p += 1
+                chk.analysed(fn)
+                ok = call_attr(c) == "fullmatch" or (isinstance(pat, str) and (pat.endswith("$") or pat.endswith("\\Z")) and (call_attr(c) == "match" or pat.startswith("^")))
+                chk.ob("REGEX-12", "%s recognises a text by matching all of it" % fn.qualname, ok, fn.where(c), detail="%s(%r)" % (call_attr(c), pat), construct=fn.ident,
+                       text="partial pattern test in " + fn.name)
+    chk.ob("REGEX-12", "pattern tests examined (%d)" % n_p, n_p >= 1, "mpf/core/utility_functions.py:1", nontrivial=False)
 
 
 def _list_helpers(chk, repo):
@@ -713,6 +774,8 @@ def battery():
         M("keys named like templates are not validated", CV, "            if this_spec[k] == 'ignore' or k[0] == '_':\n                continue", "            if this_spec[k] == 'ignore' or k[0] == '_' or k.endswith('_events'):\n                continue", "DOM-24"),
         M("unknown keys of some sections are accepted", CV, "                if not isinstance(k, dict) and k not in spec and k[0] != '_':", "                if not isinstance(k, dict) and k not in spec and k[0] != '_' and len(spec) > 1:", "DOM-24"),
         M("fractional minutes truncated to whole seconds before scaling", UT, "            return int(float(time_string[:-1]) * 60 * 1000)", "            return int(float(time_string[:-1]) * 60) * 1000", "TABLE-3"),
+        M("hex recogniser accepts any text that starts with six hex digits", "mpf/core/utility_functions.py", "return Util.hex_matcher.fullmatch(str(string)) is not None", "return Util.hex_matcher.match(str(string)) is not None", "REGEX-12"),
+        M("bool validator passes 1 / 0 through unconverted", CV, "        if isinstance(item, bool):\n            return item", "        if item in (True, False):\n            return item", "PASS-12"),
     ]
 
 
